@@ -231,7 +231,7 @@ func (r *Runner) restart(sc Scenario, first Outcome, i int, line string) {
 	}
 	seen := map[string]bool{}
 	for _, en := range out.World.Log {
-		if en.Kind == KPlain || en.Soft() || before[en.ID] || after[en.ID] || tl[en.Seq()] || en.Pos <= initialOf(out.World, en.Seq()) {
+		if en.Kind == KPlain || en.Soft() || !out.World.tracked(en) || before[en.ID] || after[en.ID] || tl[en.Seq()] || en.Pos <= initialOf(out.World, en.Seq()) {
 			continue
 		}
 		key := "c03-restart-lost-update"
@@ -318,6 +318,8 @@ func ownerOfWord(w *World, word string) string {
 		return word[2:]
 	case strings.HasPrefix(word, "S:c"):
 		return word[2:strings.Index(word, "=")]
+	case strings.HasPrefix(word, "A:restore"):
+		return "main"
 	case strings.HasPrefix(word, "A:chdiff"):
 		return "c" + word[8:strings.Index(word, "(")]
 	case strings.HasPrefix(word, "D:"):
@@ -454,6 +456,12 @@ func Fixed() []Scenario {
 		// a marker in order, a marker lost (recovered by the difference's state), a late marker (outdated)
 		{P0: 10, Q0: 0, C0: map[int64]int{5: 5}, Log: []Entry{{ID: 1, Kind: KAff, Pos: 11, Count: 1}, {ID: 2, Kind: KMsg, Pos: 12, Count: 1}, {ID: 3, Kind: KAff, Pos: 13, Count: 1}, {ID: 4, Kind: KChAff, Chan: 5, Pos: 7, Count: 2}, {ID: 5, Kind: KChMsg, Chan: 5, Pos: 8, Count: 1}},
 			Actions: []Action{{Op: "a", IDs: []int{1}}, {Op: "p", IDs: []int{2}}, {Op: "e", N: 3}, {Op: "T"}, {Op: "a", IDs: []int{3}}, {Op: "CT", C: 5}, {Op: "a", IDs: []int{4}}}},
+		// differences that forward updates of OTHER sequences: channel 5's difference carries a later
+		// update of channel 8, a common pts update and a position-less one; the common difference carries
+		// channel updates, one of an unknown channel; everything also arrives by its own way later
+		{P0: 10, Q0: 0, C0: map[int64]int{5: 5, 8: 20}, Log: []Entry{{ID: 1, Kind: KChMsg, Chan: 5, Pos: 6, Count: 1}, {ID: 2, Kind: KChMsg, Chan: 8, Pos: 21, Count: 1}, {ID: 3, Kind: KChMsg, Chan: 8, Pos: 22, Count: 1},
+			{ID: 4, Kind: KMsg, Pos: 11, Count: 1}, {ID: 5, Kind: KPlain}, {ID: 6, Kind: KChOther, Chan: 9001, Pos: 4, Count: 1}, {ID: 7, Kind: KChOther, Chan: 5, Pos: 7, Count: 1}},
+			Actions: []Action{{Op: "e", N: 7}, {Op: "X", C: 5, IDs: []int{3, 4, 5}}, {Op: "CT", C: 5}, {Op: "X", C: 0, IDs: []int{2, 6, 7}}, {Op: "T"}, {Op: "p", IDs: []int{6}}}},
 		// gaps on the common pts, the qts and a channel sequence; then the gap timers fire
 		{P0: 10, Q0: 0, C0: map[int64]int{5: 5}, Log: []Entry{{ID: 1, Kind: KMsg, Pos: 11, Count: 1}, {ID: 2, Kind: KMsg, Pos: 12, Count: 1}, {ID: 3, Kind: KQts, Pos: 1, Count: 1}, {ID: 4, Kind: KQOther, Pos: 2, Count: 1},
 			{ID: 5, Kind: KChMsg, Chan: 5, Pos: 6, Count: 1}, {ID: 6, Kind: KChOther, Chan: 5, Pos: 8, Count: 2}},
